@@ -76,9 +76,9 @@ Proof.
   unfold s_wok, s_wreset. intros H. rewrite Forall_map. eapply Forall_impl; [|exact H].
   intros e He. cbn in *. lia.
 Qed.
-Lemma s_can_antitone w w' s : s_wle w w' -> s_can w' s = true -> s_can w s = true.
+Lemma s_can_antitone w w' s : s_sok s -> s_wle w w' -> s_can w' s = true -> s_can w s = true.
 Proof.
-  unfold s_can. intros Hle H. rewrite forallb_forall in *. intros r Hr. specialize (H r Hr). specialize (Hle (fst r)). lia.
+  unfold s_can. intros _ Hle H. rewrite forallb_forall in *. intros r Hr. specialize (H r Hr). specialize (Hle (fst r)). lia.
 Qed.
 
 (* exact conservation: what a placement takes is what its strategy requests, name by name *)
@@ -121,7 +121,7 @@ Record ledger_laws (L : ledger) (wle : wk L -> wk L -> Prop) (wok : wk L -> Prop
   ll_place_le : forall w t s, wok w -> sok s -> can L w s = true -> wle w (wplace L w t s);   (* placing only consumes *)
   ll_place_ok : forall w t s, wok w -> sok s -> can L w s = true -> wok (wplace L w t s);
   ll_reset_ok : forall w, wok w -> wok (wreset L w);
-  ll_antitone : forall w w' s, wle w w' -> can L w' s = true -> can L w s = true        (* fitting is antitone *)
+  ll_antitone : forall w w' s, sok s -> wle w w' -> can L w' s = true -> can L w s = true   (* fitting is antitone *)
 }.
 Lemma SL_laws : ledger_laws SL s_wle s_wok s_sok.
 Proof.
